@@ -1,6 +1,8 @@
 package harness
 
 import (
+	"sync/atomic"
+	"fmt"
 	"sync"
 	"math/rand"
 	"net"
@@ -115,6 +117,7 @@ func TestC12(t *testing.T) {
 	r := newRand(12)
 
 	// (a) round trips
+	rtv := &violationLog{}
 	var held, heldCopy []byte
 	for i := 0; i < scale(1500, 60000); i++ {
 		m := randMsg(r)
@@ -135,11 +138,21 @@ func TestC12(t *testing.T) {
 		}
 		held, heldCopy = b, append([]byte{}, b...)
 		if b != nil {
-			if d := emitDhcpDecode(c, "rt", b); d != nil {
+			d := emitDhcpDecode(c, "rt", b)
+			if d != nil {
 				emitDecodeOptions(c, "rt", d.Options)
+			}
+			// the first sentence of the property, read off the implementation alone: decoding the encoding returns the message
+			atomic.AddInt64(&rtv.n, 1)
+			if d == nil {
+				rtv.add("c12-roundtrip", "the encoding of a message (hlen %d, %d options) is refused by the decoder: %x", len(m.ClientMAC), len(m.Options), b)
+			} else if want, got := fmt.Sprint(encMsg(&m)), fmt.Sprint(encMsg(d)); want != got {
+				rtv.add("c12-roundtrip", "decoding the encoding of a message returns another message:\n in  %s\n out %s\n encoding %x", want, got, b)
 			}
 		}
 	}
+	rtv.write(t, "c12rt", map[string]interface{}{"distinct_nontrivial": int(atomic.LoadInt64(&rtv.n)), "histogram": map[string]int{"round-trips": int(atomic.LoadInt64(&rtv.n))},
+		"samples": []string{"random messages of the round-trip domain: Decode(Assemble(m)) compared with m field by field, option by option"}})
 	// outside the round-trip domain: no options, payload > 255, hardware address > 16, codes 0 and 255
 	for i := 0; i < scale(300, 5000); i++ {
 		m := randMsg(r)
